@@ -281,6 +281,10 @@ inductive AggrRes where
 def aggrBatchSize (clamp : Bool) (len nc : Nat) : Nat :=
   if clamp then max 1 (len / nc) else len / nc
 
+/-- which of the two the tree under check uses (`max(len(chks)/numChunks, 1)` since the repair;
+    regenerated obligation `C38_source_facts`) -/
+def aggrClampNow : Bool := true
+
 /-- the `for len(chks) > 0` loop of downsampleAggrLoop; running out of fuel (= number of
     chunks) means that the iterations stopped consuming chunks: the Go loop spins forever -/
 def aggrLoop (r : Int) (batchSize : Nat) : Nat → List Chunk → AggrRes
